@@ -290,25 +290,28 @@ def case_key(c):
     return hashlib.sha1(json.dumps(k, sort_keys=True).encode()).hexdigest()
 
 
-def tlc_expect_violation(ctx, module, constants, invariant, name, workers=4):
+def tlc_expect_violation(ctx, module, constants, invariant, name, workers=4, temporal=False):
     """Negative control on a model: TLC must report a violation of invariant."""
     wd = ctx.sub("neg-" + name)
     for f in os.listdir(SPEC):
         if f.endswith(".tla"):
             shutil.copyfile(os.path.join(SPEC, f), os.path.join(wd, f))
     with open(os.path.join(wd, module + ".cfg"), "w") as f:
-        f.write(cfg(constants, [invariant]))
+        f.write(cfg(constants, [] if temporal else [invariant], extra=("PROPERTIES " + invariant) if temporal else ""))
     cmd = _tlc_cmd("4g") + ["-workers", str(workers), "-metadir", os.path.join(wd, "md"), "-noGenerateSpecTE", module + ".tla"]
     p = subprocess.run(cmd, cwd=wd, stdout=subprocess.PIPE, stderr=subprocess.STDOUT, text=True, timeout=1800)
     shutil.rmtree(wd, ignore_errors=True)
-    if ("Invariant %s is violated" % invariant) not in p.stdout:
+    if ("Invariant %s is violated" % invariant) not in p.stdout and not (temporal and "emporal propert" in p.stdout and "violated" in p.stdout):
         raise Infra("negative control %s: TLC did not report a violation of %s" % (name, invariant))
     ctx.model_checks.append("negative control %s: TLC finds a violation of %s!%s as it must" % (name, module, invariant))
 
 
-def tlc_model_check(ctx, module, constants, invariants, name, workers=8):
+def tlc_model_check(ctx, module, constants, invariants, name, workers=8, properties=()):
     wd = ctx.sub("mc-" + name)
-    out, gen, dist = run_tlc(ctx, module, cfg(constants, list(invariants)), wd, workers=workers)
+    extra = ("PROPERTIES " + " ".join(properties)) if properties else ""
+    out, gen, dist = run_tlc(ctx, module, cfg(constants, list(invariants), extra=extra), wd, workers=workers)
+    for pr in properties:
+        ctx.model_checks.append("%s!%s (temporal) held on %d states (%s)" % (module, pr, dist, name))
     shutil.rmtree(wd, ignore_errors=True)
     ctx.gen_stats.append(dict(spec=module, name=name, constants={k: (sorted(v) if isinstance(v, (set, frozenset)) else v) for k, v in constants.items()},
                               states=dist, transitions=gen, reported=0))
